@@ -10,6 +10,7 @@ import (
 	"math"
 
 	"github.com/benoitkugler/webrender/backend"
+	"github.com/benoitkugler/webrender/logger"
 	"github.com/benoitkugler/webrender/matrix"
 	"github.com/benoitkugler/webrender/text"
 	"github.com/benoitkugler/webrender/utils"
@@ -606,8 +607,12 @@ func (tree *svgContext) processNode(node *cascadedNode, defs definitions) (*svgN
 	var children []*svgNode
 	for _, c := range node.children {
 		child, err := tree.processNode(c, defs)
-		if err != nil {
+		if err == errRecursiveUse {
 			return nil, err
+		} else if err != nil {
+			// an invalid element is not rendered, but the rest of the image still is
+			logger.WarningLogger.Printf("SVG: ignoring invalid element <%s>: %s", c.tag, err)
+			continue
 		}
 		if child == nil {
 			continue // do not add useless node to the tree
